@@ -1,7 +1,7 @@
 (* One entry point for the extracted model: [run cmd args] returns the result fields.
    The OCaml driver only splits lines, (un)escapes and converts strings. *)
 From Coq Require Import List Bool NArith ZArith String Ascii.
-From PC Require Import Base.Cmp Base.Result Model.Pep440 Spec.Pep440Spec Spec.Specifier Model.VConstraint Model.Generic Model.Marker Model.Wheel Model.Select.
+From PC Require Import Base.Cmp Base.Result Model.Pep440 Spec.Pep440Spec Spec.Specifier Model.VConstraint Model.Generic Model.Marker Model.Wheel Model.Select Model.PyRange.
 Import ListNotations.
 Open Scope string_scope.
 Open Scope N_scope.
@@ -495,6 +495,32 @@ Definition run_select (cmd : string) (args : list string) : option (list string)
     | _ => None end
   else None.
 
+(* ---------------- python ranges -> marker text ---------------- *)
+Definition read_release (s : string) : option (option release) :=
+  if seq s "-" then Some None else option_map Some (mapM read_N (split_on "."%char (lchars s))).
+Definition run_pyrange (cmd : string) (args : list string) : option (list string) :=
+  if seq cmd "nested" then
+    match args with
+    | [lo; hi; imn; imx] =>
+      Some match read_release lo, read_release hi with
+           | Some l, Some h => [nested_str (nested_range l h (seq imn "1") (seq imx "1"))]
+           | _, _ => ["badrelease"] end
+    | [v] => Some match read_release v with
+                  | Some (Some r) => [pleaf_str (single_leaf r)]
+                  | _ => ["badrelease"] end
+    | _ => None end
+  else if seq cmd "nested_eval" then
+    match args with
+    | lo :: hi :: imn :: imx :: interps =>
+      Some match read_release lo, read_release hi with
+           | Some l, Some h =>
+             map (fun i => match read_release i with
+                           | Some (Some r) => show_bool (forallb (fun lf => eval_pleaf lf r) (nested_range l h (seq imn "1") (seq imx "1")))
+                           | _ => "bad" end) interps
+           | _, _ => ["badrelease"] end
+    | _ => None end
+  else None.
+
 (* reference specifier semantics (Spec/Specifier.v), validated against packaging by the harness *)
 Definition run_spec (cmd : string) (args : list string) : option (list string) :=
   if seq cmd "spcontains" then
@@ -529,7 +555,10 @@ Definition run (cmd : string) (args : list string) : list string :=
                                   | Some r => r
                                   | None => match run_wheel cmd args with
                                             | Some r => r
-                                            | None => match run_select cmd args with Some r => r | None => ["unknown-command"] end
+                                            | None => match run_select cmd args with
+                                                      | Some r => r
+                                                      | None => match run_pyrange cmd args with Some r => r | None => ["unknown-command"] end
+                                                      end
                                             end
                                   end
                         end
